@@ -132,6 +132,27 @@ let jwe_of_term t =
     EEnc (to_b kalg, to_b cenc, key_of_name key, cty = "1", inner)
   | _ -> failwith ("bad jwe term " ^ t)
 
+(* ---- rdp files ---------------------------------------------------------- *)
+let string_of_z z =
+  (* decimal rendering without going through OCaml ints (int64 extremes) *)
+  let b = Model.render_int z in String.concat "" (List.map (fun x -> String.make 1 (Char.chr (int_of_byte x))) b)
+let z_of_string s =
+  let bs = List.map (fun c -> byte_of_int (Char.code c)) (List.of_seq (String.to_seq s)) in
+  match Model.atoi bs with Some z -> z | None -> failwith ("bad integer " ^ s)
+let value_of s =
+  if String.length s >= 2 && String.sub s 0 2 = "i:" then VInt (z_of_string (String.sub s 2 (String.length s - 2)))
+  else VStr (bytes_of_hex (String.sub s 2 (String.length s - 2)))
+let string_of_value = function VInt z -> "i:" ^ string_of_z z | VStr b -> "s:" ^ hex_of_bytes b
+let kvs_of s = if s = "empty" || s = "" then [] else
+    List.map (fun e -> match String.index_opt e '=' with
+        | Some i -> (bytes_of_hex (String.sub e 0 i), value_of (String.sub e (i + 1) (String.length e - i - 1)))
+        | None -> failwith "bad kv") (split_on ';' s)
+let canon_kvs m =
+  match Model.sort_kv m with
+  | [] -> "empty"
+  | l -> String.concat ";" (List.map (fun (k, v) -> hex_of_bytes k ^ "=" ^ string_of_value v) l)
+let settings_string s = String.concat "," (List.map string_of_value s)
+
 (* ---- kinds ----------------------------------------------------------- *)
 let parse_answers s = { a_cookie = s.[0] = '1'; a_name = s.[1] = '1'; a_host = s.[2] = '1'; a_dial = s.[3] = '1' }
 let parse_redir s = { rf_clipboard = s.[0] = '1'; rf_port = s.[1] = '1'; rf_drive = s.[2] = '1';
@@ -287,6 +308,28 @@ let handle (fields : string list) : string * string =
     let st = int_of_n (Model.token_info_status (meth = "GET") p (v <> None)) in
     let m = Printf.sprintf "%d:%s:0" st (match v with Some s when st = 200 -> hex_of_bytes s | _ -> "-") in
     (m, if m = impl then "ok" else "fail:tokeninfo-status-or-disclosure")
+  | "rdpmarshal" :: m :: impl :: [] ->
+    let kvs = kvs_of m in
+    let out = Model.marshal kvs in
+    let back = (match Model.parse out with Some m' when canon_kvs m' = canon_kvs kvs -> "RT:ok" | _ -> "RT:diff") in
+    let mo = hex_of_bytes out ^ " " ^ back ^ " WF:ok" in
+    (mo, if mo = impl then "ok" else if not (List.mem "RT:ok" (split_on ' ' impl)) then "fail:parse-marshal-roundtrip"
+         else if not (List.mem "WF:ok" (split_on ' ' impl)) then "fail:file-not-wellformed" else "fail:marshal-bytes")
+  | "rdpparse" :: file :: impl :: [] ->
+    let mo = (match Model.parse (bytes_of_hex file) with Some m -> canon_kvs m | None -> "err") in
+    (mo, if mo = impl then "ok" else if mo = "err" then "fail:malformed-input-accepted" else "fail:parse-result")
+  | "rdpbuild" :: st :: impl :: [] ->
+    let s = List.map value_of (split_on ',' st) in
+    let text = Model.emit s in
+    let rt = (match Model.load text with Some s' when settings_string s' = settings_string s -> "RT:ok" | _ -> "RT:diff") in
+    let mo = hex_of_bytes text ^ " " ^ rt ^ " WF:ok" in
+    (mo, if mo = impl then "ok" else if not (List.mem "RT:ok" (split_on ' ' impl)) then "fail:builder-roundtrip"
+         else if not (List.mem "WF:ok" (split_on ' ' impl)) then "fail:file-not-wellformed" else "fail:builder-text")
+  | "rdptemplate" :: tmpl :: impl :: [] ->
+    let mo = (match Model.load (bytes_of_hex tmpl) with
+        | Some s -> hex_of_bytes (Model.emit s) ^ " " ^ settings_string s ^ " WF:ok"
+        | None -> "err") in
+    (mo, if mo = impl then "ok" else "fail:template-handling")
   | k :: _ -> failwith ("unknown kind " ^ k)
   | [] -> failwith "empty line"
 
